@@ -3,7 +3,8 @@ SPEC = dict(
     title="Every endpoint and inter-node request enforces its permission",
     pkg="./http", files=["http/c18_verif_test.go"],
     rule="wire-level exchanges: every case of the ServeHTTP switch (read from http/service.go) and every Command_Type of the proto enum "
-         "x 33 credential files (each single permission for a user, for '*', none, all, redefinition) x 4 presentations "
+         "x 40 credential FILES loaded by a real auth.CredentialsStore handed to the services as such (each single permission for a user, for '*', none, all, redefinition, "
+         "partial '*' grants against the multi-permission requirements, '*' with all; empty fields spelled out or omitted), a subset again through an AA-only wrapper, x 4 presentations "
          "(none, wrong password, right password, unknown user), plus wrong-method / missing-payload / foreign-payload shapes and random files; "
          "plus connections carrying 2-5 requests with the credentials changing between requests (right->wrong password, user A->user B, authorized->anonymous, reversed, random) "
          "on one inter-node TCP connection (fenced by GET_NODE_META) and one keep-alive HTTP connection, every request judged on its own credentials; "
